@@ -1192,10 +1192,11 @@ class BaseGaussianState(BaseState):
 
             r = np.arccosh(tr / 2) / 2
 
-            if cov[0, 1] == 0.0:
+            # cov[0, 1] = -sinh(2r) sin(phi), cov[1, 1] - cov[0, 0] = 2 sinh(2r) cos(phi)
+            if cov[0, 1] == 0.0 and cov[1, 1] >= cov[0, 0]:
                 phi = 0
             else:
-                phi = -np.arcsin(2 * cov[0, 1] / np.sqrt((tr - 2) * (tr + 2)))
+                phi = np.arctan2(-2 * cov[0, 1], cov[1, 1] - cov[0, 0])
 
             res.append((r, phi))
 
